@@ -9,9 +9,11 @@ import (
 	"hash/fnv"
 	"math/rand"
 	"os"
+	"os/exec"
 	"path/filepath"
 	"runtime"
 	"sort"
+	"strconv"
 	"strings"
 	"sync/atomic"
 	"time"
@@ -318,6 +320,33 @@ func IDs() []string {
 	}
 	sort.Strings(ids)
 	return ids
+}
+
+var auxCmds = map[string]func(args []string) int{}
+
+// RegisterAux registers an auxiliary child command (`vmon aux <name> args...`), used by
+// monitors that need a second process (e.g. to evaluate the same cases in another order).
+func RegisterAux(name string, f func(args []string) int) { auxCmds[name] = f }
+
+// RunAux dispatches `vmon aux <name> ...`.
+func RunAux(args []string) int {
+	if len(args) == 0 || auxCmds[args[0]] == nil {
+		fmt.Fprintln(os.Stderr, "unknown aux command")
+		return 3
+	}
+	return auxCmds[args[0]](args[1:])
+}
+
+// SelfExec runs this binary's aux command and returns its stdout.
+func SelfExec(timeoutSec int, args ...string) ([]byte, error) {
+	exe, err := os.Executable()
+	if err != nil {
+		return nil, err
+	}
+	full := append([]string{"-s", "KILL", strconv.Itoa(timeoutSec), exe, "aux"}, args...)
+	cmd := exec.Command("timeout", full...)
+	cmd.Stderr = os.Stderr
+	return cmd.Output()
 }
 
 // Mon declares a monitor over cases of type C. The returned function runs the
